@@ -271,9 +271,11 @@ pub fn candidates(seed: u64) -> Vec<Value> {
     // DIMACS texts: 1-6 variables (and 11-12, two-digit numbers), 1-6 non-empty clauses of 1-4 literals, repeated and complementary literals allowed
     out.push(json!({"case": "ser_dimacs", "nv": 3, "clauses": [[1, -2, 3]]}));
     out.push(json!({"case": "ser_dimacs", "nv": 2, "clauses": [[-1], [2, 1], [-2, -1]]}));
+    out.push(json!({"case": "ser_dimacs", "nv": 2, "clauses": [[1, 2], []]}));
+    out.push(json!({"case": "ser_dimacs", "nv": 2, "clauses": [[], [1, -2]]}));
     for t in 0..300 {
         let nv = if t % 10 == 9 { 11 + nx(2) } else { 1 + nx(6) };
-        let cls: Vec<Vec<i64>> = (0..(1 + nx(6))).map(|_| (0..(1 + nx(4))).map(|_| { let v = 1 + nx(nv) as i64; if nx(2) == 0 { v } else { -v } }).collect()).collect();
+        let cls: Vec<Vec<i64>> = (0..(1 + nx(6))).map(|_| (0..(if nx(12) == 0 { 0 } else { 1 + nx(4) })).map(|_| { let v = 1 + nx(nv) as i64; if nx(2) == 0 { v } else { -v } }).collect()).collect();
         out.push(json!({"case": "ser_dimacs", "nv": nv, "clauses": cls}));
     }
     // s-expressions without constants over names whose lexicographic order differs from their order of appearance and from numeric order
